@@ -1,19 +1,23 @@
 #!/bin/bash
 # usage: tools/mutant_test.sh <patch.diff> <Cnn> [<Cnn> ...]
-# Applies the patch to /repo's working tree, runs the quick checks, restores the tree.
-# Prints one line per check: <patch> <Cnn> exit=<rc> (1 = detected).
+# Applies the patch to a scratch worktree of /repo (never to /repo itself), runs the checks against it
+# (VERIF_REPO), removes the worktree.  Evidence and replay output of these runs go to a scratch directory.
+# Prints one line per check: <patch> <Cnn> exit=<rc> (1 = detected).   MUTANT_TIER=thorough, MUTANT_RUN_TESTS=1 optional.
 set -u
 patch=$(readlink -f "$1"); shift
-cd /repo || exit 2
-if [ -n "$(git status --porcelain)" ]; then echo "/repo working tree is dirty"; exit 2; fi
-if ! git apply "$patch"; then echo "patch does not apply: $patch"; exit 2; fi
-trap 'git -C /repo checkout -- . ; git -C /repo clean -fdq' EXIT
+wt=/tmp/mwt-$$
+git -C /repo worktree add -q "$wt" HEAD || exit 2
+trap 'git -C /repo worktree remove --force "$wt" 2>/dev/null; rm -rf /tmp/mwt-ev-$$' EXIT
+cd "$wt" || exit 2
+if ! git apply "$patch"; then echo "$(basename $patch) PATCH-DOES-NOT-APPLY"; exit 2; fi
 export GOFLAGS=-mod=mod GOPROXY=off GOSUMDB=off GOTOOLCHAIN=local
 if ! go build ./... ; then echo "$(basename $patch) DOES-NOT-BUILD"; exit 2; fi
 if [ "${MUTANT_RUN_TESTS:-0}" = "1" ]; then
-  go test -count=1 ./... > /tmp/mutant_tests.log 2>&1 && echo "$(basename $patch) repo-tests=pass" || echo "$(basename $patch) repo-tests=FAIL"
+  go test -vet=off -count=1 ./... > /tmp/mwt-tests-$$.log 2>&1 && echo "$(basename $patch) repo-tests=pass" || { echo "$(basename $patch) repo-tests=FAIL"; grep -m5 "FAIL" /tmp/mwt-tests-$$.log; }
+  rm -f /tmp/mwt-tests-$$.log
 fi
 cd /verif
+export VERIF_REPO="$wt" VERIF_EVIDENCE_DIR=/tmp/mwt-ev-$$/evidence VERIF_REPLAY_DIR=/tmp/mwt-ev-$$/replay
 for p in "$@"; do
   out=$(./check $p ${MUTANT_TIER:-quick} 2>&1); rc=$?
   echo "$(basename $patch) $p exit=$rc $(echo "$out" | grep -c '^VIOLATION') violations"
